@@ -7,6 +7,10 @@ checks = {
  "C05": ("exploration", "Histories plus one unconfirmed transaction ended by cancel or by fake-clock expiry; intended store and touched device paths compared with the snapshot from before the transaction.", "4 C05"),
  "C06": ("exploration", "Seeded operation sequences (Set valid/invalid/dry-run/device-error, Confirm/Cancel with matching/stale/unknown ids, waits around the deadline) on the fake clock, judged by a transaction-slot reference model with a liveness probe.", "4 C06"),
  "C09": ("exploration", "Histories with verbatim re-submissions in every input form; the proto, JSON, JSON_IETF and 8 XML renderings of the same tree instance must be empty and both stores unchanged.", "4 C09"),
+ "C07": ("fault_enumeration", "For a generated history and a chosen transaction, every collaborator call (target.Set, cache Read/ReadCh/GetKeys/Modify, schema GetSchema) is numbered in a counting pass; sampled (call, fault kind) pairs incl. torn writes, lost acks, short reads, device reject/unreachable/lost reply and fail-stop crash + restart over the same badger directory are injected one at a time in fresh worlds, the request is retried and the outcome compared with the fault-free reference run.", "4 C07"),
+ "C13": ("exploration", "Scripted device notifications (re-sync cycles, on-change updates/deletes, JSON blobs, state leaves) into the real Datastore.Sync with 1/2/16 write workers; every cache write of a sync worker parks in a decorator and the seeded scheduler chooses the completion order; CONFIG/STATE compared with a sequential running-mirror model at quiescence.", "4 C13"),
+ "C18": ("fault_enumeration", "The real ncTarget.Set is driven around an in-process netconf.Driver with XML change documents captured from real trees; for both commit-datastore settings, the 8 option combinations and every failure point of the driver call sequence (with and without rpc-error warnings) - enumerated completely per document - the recorded call sequence and the fake device's candidate are judged.", "4 C18"),
+ "C19": ("exploration", "Server.GetData/Subscribe/WatchDeviations run against fake server streams under the seeded scheduler; Send failures at every index, stalls, slow consumers and client cancellation at every tick; bounded return after the stream ends, no panic, no goroutine left at bubble end (synctest).", "4 C19"),
  "C16": ("exploration", "Seeded cooperative scheduler over yield points at every transaction-manager lock acquisition and timer event: Confirm/Cancel/expiry/competing Set interleavings on the real Datastore; exactly-once, agreement with client answers, process survival, porcupine linearizability against the slot model.", "4 C16"),
 }
 def hooks_commits():
